@@ -246,7 +246,10 @@ fn key_enter_body(valid: usize) {
 macro_rules! enter_len {
     ($name:ident, $v:expr) => {
         #[kani::proof]
-        #[kani::unwind(8)]
+        // from N = 4 on help-shaped lines exist (`x -h`): the error text "unknown command"
+        // (15 bytes) is scanned for line feeds by the Writer
+        #[cfg_attr(any(vp_n4, vp_n5), kani::unwind(17))]
+        #[cfg_attr(not(any(vp_n4, vp_n5)), kani::unwind(8))]
         fn $name() {
             key_enter_body($v);
         }
